@@ -86,7 +86,7 @@ L2_PLAN = {
     "C06": [("inplace", 70, 11, "plain"), ("mixed", 25, 5, "plain"), ("seeds", 120, 20, "plain"), ("big", 2, 12, "bulk")],
     "C07": [("mixed", 20, 4, "plain"), ("seeds", 80, 16, "plain")],
     "C08": [("mixed", 25, 5, "httpfaults"), ("inplace", 150, 30, "httpfaults")],
-    "C05": [("crash", 12, 2, "faults"), ("seeds", 250, 50, "faults"), ("mixed", 70, 14, "faults")],
+    "C05": [("crash", 12, 4, "faults"), ("seeds", 250, 80, "faults"), ("mixed", 70, 24, "faults")],
 }
 L2_CAT = {"MAXRUN": "C07", "RESUME": "C08", "RETRY": "C08", "W0": "C13", "W1": "C13", "W2": "C13", "W3": "C13", "W4": "C13", "FETCH": "C06", "CRASH": "C05", "C16": "C16",
           # accounting rules (the numbers bita reports): part of the specification, outside the 17 properties - counted in evidence, never a VIOLATION
@@ -113,7 +113,7 @@ def run_l2(prop, tier, out, workdir):
             traces.append(tr)
             cmd = ["timeout", "3000", sys.executable, os.path.join(VERIF, "lib", "clone_l2.py"), "--scen", scen, "--out", tr, "--shard", str(i), "--shards", str(shards),
                    "--bita", BITA, "--dir", os.path.join(workdir, "l2fs"), "--seed", str(seed()), "--every", str(every), "--mode", mode, "--fi", os.path.join(WORK, "fi.so"),
-                   "--max-faults", "5" if tier == "quick" else "12"]
+                   "--max-faults", "5" if tier == "quick" else "8"]
             procs.append(subprocess.Popen(cmd, stdout=subprocess.PIPE, stderr=subprocess.PIPE, env=dict(os.environ, RUST_BACKTRACE="0")))
         runs = 0
         for p in procs:
@@ -144,7 +144,7 @@ def run_l2(prop, tier, out, workdir):
             out.violation("L2 %s|%s|%s" % (v["rule"], fam, sc.get("kind")), "L2 %s (family %s, kind %s, transport %s, layout %s, fault %s)" % (v["rule"], fam, sc.get("kind"), sc.get("transport"), json.dumps(sc.get("layout")), sc.get("fault")),
                           {"kind": "clone_l2", "family": fam, "mode": mode, "scenario_n": sc.get("n"), "layout": sc.get("layout"), "verdict": {k: v[k] for k in ("rule", "scenario", "line")}, "events": evs[:120],
                            "rerun": {"cfg": cfgname, "seed": seed(), "shard": v.get("shard", 0), "shards": shards, "every": every, "mode": mode, "n": sc.get("n"),
-                                     "max_faults": 5 if tier == "quick" else 12}})
+                                     "max_faults": 5 if tier == "quick" else 8}})
     return total, tv, counts, samples
 
 
